@@ -171,8 +171,22 @@ def check_pad(rec, K, N, table, axis, comp, wA, wB, ri, li, seed, g=None, case=N
             r = pad(to_da(arrays["s"], "s", layout), g, bw, boundary=dict(brule), fill_value=dict(bfv))
         else:
             oc = T.OTHER[comp]
-            r = pad({comp: to_da(arrays[comp], comp, layout).astype(np.float32) if mixed else to_da(arrays[comp], comp, layout)}, g, bw, boundary=dict(brule), fill_value=dict(bfv),
-                    other_component={oc: to_da(arrays[oc], oc, layout)})
+            vec_ = {comp: to_da(arrays[comp], comp, layout).astype(np.float32) if mixed else to_da(arrays[comp], comp, layout)}
+            ocd_ = {oc: to_da(arrays[oc], oc, layout)}
+            held_ = (vec_[comp], ocd_[oc])
+            r = pad(vec_, g, bw, boundary=dict(brule), fill_value=dict(bfv), other_component=ocd_)
+            if (ri + li + wA[1]) % 2 == 0:
+                # a caller that keeps its two mappings and asks again (other widths first, then the same request): the
+                # request stays legal and the answer stays the same
+                pad(vec_, g, {axis: (1, 0)}, boundary=dict(brule), fill_value=dict(bfv), other_component=ocd_)
+                r2_ = pad(vec_, g, bw, boundary=dict(brule), fill_value=dict(bfv), other_component=ocd_)
+                rec.calls += 2
+                if r2_.dims != r.dims or not np.array_equal(r2_.values, r.values, equal_nan=True):
+                    rec.violation("pad", "second-request-with-the-same-mappings-differs", case, r.values, r2_.values)
+                    return
+            if list(vec_) != [comp] or list(ocd_) != [oc] or vec_[comp] is not held_[0] or ocd_[oc] is not held_[1]:
+                rec.violation("pad", "component-mapping-changed", case, [[comp], [oc]], [list(vec_), list(ocd_)])
+                return
     except Exception as e:
         rec.violation("pad", "raise:" + exc_sig(e), case, "padded array", f"{type(e).__name__}: {e}"[:200])
         return
